@@ -140,8 +140,9 @@ fn run_typed<C: CellType>(cfg: &Cfg, code: &str, io: &Io, slot: &mut Slot, on_bc
             Backend::Jit => panic!("no JIT under miri"),
         };
         let a1 = alloc::counters().0;
-        let slot = unsafe { &mut *slot_ptr };
-        slot.aux[0] = a1 - a0;
+        // (the logging reader/writer re-derive their own references from `slot_ptr`; keep no
+        // long-lived reference here)
+        unsafe { (*slot_ptr).aux[0] = a1 - a0 };
         let reader: Option<Box<dyn std::io::Read>> = io.input.as_ref().map(|d| {
             Box::new(LogReader { slot: slot_ptr, data: d.clone(), pos: 0, fault: io.fault }) as Box<dyn std::io::Read>
         });
@@ -166,13 +167,16 @@ fn run_typed<C: CellType>(cfg: &Cfg, code: &str, io: &Io, slot: &mut Slot, on_bc
         };
         alloc::arm(false);
         let a3 = alloc::counters().0;
-        slot.aux[1] = a3 - a2;
-        slot.aux[2] = cxt.budget as u64;
+        unsafe {
+            (*slot_ptr).aux[1] = a3 - a2;
+            (*slot_ptr).aux[2] = cxt.budget as u64;
+        }
         drop(cxt);
         drop(exec);
         Ok(r)
     }));
     alloc::arm(false);
+    let slot = unsafe { &mut *slot_ptr };
     match res {
         Ok(Ok(Ok(finished))) => {
             if finished {
